@@ -1567,7 +1567,12 @@ func (t *http2Client) operateHeaders(frame *http2.MetaHeadersFrame) {
 		case "grpc-encoding":
 			recvCompress = hf.Value
 		case "grpc-status":
-			code, err := strconv.ParseInt(hf.Value, 10, 32)
+			// Status codes are uint32: accept the whole range the server can
+			// write, not only what fits in an int32.
+			code, err := strconv.ParseInt(hf.Value, 10, 64)
+			if err == nil && (code < math.MinInt32 || code > math.MaxUint32) {
+				err = fmt.Errorf("strconv.ParseInt: parsing %q: value out of range", hf.Value)
+			}
 			if err != nil {
 				se := status.New(codes.Unknown, fmt.Sprintf("transport: malformed grpc-status: %v", err))
 				t.closeStream(s, se.Err(), true, http2.ErrCodeProtocol, se, nil, endStream)
